@@ -316,16 +316,20 @@ def run(ctx):
                 r.ok("parallel|%d" % i, "ignored ⇒ not queued (so never descended)", fn=par)
         sse = facts.fn(c06.W + "::should_skip_entry")
         tail_calls = sse.calls_to("ignore::dir::Ignore::matched_dir_entry")
-        isi = sse.calls_to("ignore::Match::is_ignore")
-        if tail_calls and isi:
-            s = seed_after_call(sse, isi[0], I(1))
-            s0 = seed_after_call(sse, isi[0], I(0))
-            v1 = {x for v in s.ret_values.values() for x in value_set(v)}
-            v0 = {x for v in s0.ret_values.values() for x in value_set(v)}
-            if v1 == {I(1)} and v0 == {I(0)}:
-                r.ok("should_skip_entry", "skip ⇔ matched_dir_entry(..).is_ignore()", fn=sse)
+        if tail_calls:
+            # value table over the verdict (None / Ignore / Whitelist; Match's methods evaluated in place): is_ignore() chains and
+            # a match on the enum read the same
+            from ..flow import table, ret_set
+            wrong = []
+            for row, sx in table(facts, sse, calls={"dir::Ignore::matched_dir_entry": [V("None", None), V("Ignore", None), V("Whitelist", None)]},
+                                 callees=lambda p_: p_.startswith("ignore::Match::")):
+                v_ = row[("call", "dir::Ignore::matched_dir_entry")][1]
+                if ret_set(sx) != {I(1 if v_ == "Ignore" else 0)}:
+                    wrong.append("%s ⇒ %s" % (v_, sorted(map(str, ret_set(sx)))))
+            if wrong:
+                r.bad("should_skip_entry", "should_skip_entry is not `is_ignore()` of the directory-entry verdict (%s)" % "; ".join(wrong), fn=sse)
             else:
-                r.bad("should_skip_entry", "should_skip_entry is not `is_ignore()` of the directory-entry verdict (%s / %s)" % (v1, v0), fn=sse)
+                r.ok("should_skip_entry", "skip ⇔ matched_dir_entry(..).is_ignore()", fn=sse)
         else:
             r.bad("should_skip_entry", "anchor-missing: should_skip_entry shape", fn=sse)
 
